@@ -106,8 +106,16 @@ func runC17(c *Ctx) {
 	})
 	scenario("ecdsa.shared-key:Sign+Verify+Blind", func() func(g, k int) (string, string) {
 		sk, _ := ecdsa.CreateKey(elliptic.P384(), r.Bytes(48))
-		bk, _ := ecdsa.CreateKey(elliptic.P384(), r.Bytes(48))
-		refBp, _ := ecdsa.BlindPublicKeyWithContext(elliptic.P384(), &sk.PublicKey, bk, []byte("ctx"))
+		// every other round the shared blinding key comes from bytes that are not reduced modulo the group order
+		bkBytes := r.Bytes(48)
+		c17round++
+		if c17round%2 == 1 {
+			bkBytes = bytes.Repeat([]byte{0xff}, 48)
+		}
+		bk, _ := ecdsa.CreateKey(elliptic.P384(), bkBytes)
+		// the reference is computed from another key object, so that the shared one is first used by the concurrent calls
+		bkRef, _ := ecdsa.CreateKey(elliptic.P384(), bkBytes)
+		refBp, _ := ecdsa.BlindPublicKeyWithContext(elliptic.P384(), &sk.PublicKey, bkRef, []byte("ctx"))
 		return func(g, k int) (string, string) {
 			d := msg(g, k)
 			rr, ss, err := ecdsa.Sign(&failReader{limit: -1}, sk, d)
@@ -312,6 +320,35 @@ func runC17(c *Ctx) {
 			_, e1 := st1.FinalizeToken(rs[0])
 			_, e2 := st2.FinalizeToken(rs[2])
 			return fmt.Sprint(e1 == nil, len(rs[1]) == 0, e2 == nil), "true true true"
+		}
+	})
+	// a batch issuer configured for one token type only: requests of the other (decodable) type are answered "absent"
+	scenario("batched.issuer(type-1 only):EvaluateBatch with type-2 requests", func() func(g, k int) (string, string) {
+		a1 := newAd1(c.Seed, "c17-1o", r.Bytes(8))
+		a2 := newAd2(c.Seed, "c17-2o", r.IntN(4))
+		i1, i2 := a1.i1, a2.i2
+		a1.eval = func(q tokens.TokenRequest) ([]byte, error) { return i1.Evaluate(q.(*type1.BasicPrivateTokenRequest)) }
+		bi := batched.NewBasicBatchedIssuer(plainIssuer{a1})
+		return func(g, k int) (string, string) {
+			st1, _ := type1.NewBasicPrivateClient().CreateTokenRequest(msg(g, k), bytes.Repeat([]byte{1}, 32), a1.keyID, i1.TokenKey())
+			st2, _ := type2.NewBasicPublicClient().CreateTokenRequest(msg(g, k), bytes.Repeat([]byte{2}, 32), a2.keyID, i2.TokenKey())
+			reqs := []tokens.TokenRequestWithDetails{st2.Request(), st1.Request()}
+			if (g+k)%3 == 0 {
+				reqs = []tokens.TokenRequestWithDetails{st1.Request()}
+			}
+			br, _ := batched.NewBasicClient().CreateTokenRequest(reqs)
+			wire := &batched.BatchedTokenRequest{}
+			wire.Unmarshal(br.Marshal())
+			out, err := bi.EvaluateBatch(wire)
+			if err != nil {
+				return "evaluate-error", "ok"
+			}
+			rs, err := batched.UnmarshalBatchedTokenResponses(out)
+			if err != nil || len(rs) != len(reqs) {
+				return "decode-error", "ok"
+			}
+			_, e1 := st1.FinalizeToken(rs[len(rs)-1])
+			return fmt.Sprint(e1 == nil, len(rs) == 1 || len(rs[0]) == 0), "true true"
 		}
 	})
 	// one verification key (the issuer's published token key object) shared by many clients
